@@ -356,8 +356,32 @@ class LocalRecord(ComplexModel):
     n = Integer
 
 
-IN_TYPES = {'primitive': Integer, 'foreign': ZooRecord, 'local': LocalRecord, 'nested-foreign': FarmRecord}
-OUT_TYPES = {'primitive': Unicode, 'foreign': ZooRecord, 'local': LocalRecord, 'nested-foreign': FarmRecord}
+class PetRec(ComplexModel):
+    __namespace__ = 'urn:front'
+    name = Unicode
+
+
+class KeeperBase(ComplexModel):          # urn:back refers to urn:front through this member ...
+    __namespace__ = 'urn:back'
+    pet = PetRec
+    badge = Integer
+
+
+class Keeper(KeeperBase):                # ... and urn:front extends a type of urn:back
+    __namespace__ = 'urn:front'
+    shift = Unicode
+
+
+class Contact(ComplexModel):             # every element member belongs to a choice group
+    __namespace__ = TNS
+    email = Unicode(xml_choice_group='how')
+    phone = Unicode(xml_choice_group='how')
+
+
+IN_TYPES = {'primitive': Integer, 'foreign': ZooRecord, 'local': LocalRecord, 'nested-foreign': FarmRecord,
+            'derived-across-namespaces': Keeper, 'choice-only': Contact}
+OUT_TYPES = {'primitive': Unicode, 'foreign': ZooRecord, 'local': LocalRecord, 'nested-foreign': FarmRecord,
+             'derived-across-namespaces': Keeper, 'choice-only': Contact}
 _COMPILED = {}
 
 
@@ -366,7 +390,7 @@ _COMPILED = {}
          functions=['spyne.interface._base.Interface.add_method', 'spyne.interface._base.Interface.add_class',
                     'spyne.interface.xml_schema._base.XmlSchema.build_schema_nodes',
                     'spyne.interface.xml_schema._base.XmlSchema.build_validation_schema'],
-         bounds={'universes': '3 body styles x 4 argument kinds x 4 return kinds over three namespaces (concrete programs; '
+         bounds={'universes': '3 body styles x 6 argument kinds x 6 return kinds over five namespaces (a type derived across two namespaces that refer to each other, a type whose members all sit in a choice group) (concrete programs; '
                               'this harness is an enumeration of universes, there is no symbolic input)'})
 def schema_compiles(sx, p):
     """for every listed application the generated schema set compiles (every referenced namespace is imported) and both the
@@ -376,9 +400,13 @@ def schema_compiles(sx, p):
     kw = {} if style == 'wrapped' else {'_body_style': style}
 
     out_value = {'primitive': u'txt', 'foreign': ZooRecord(name=u'z', legs=4), 'local': LocalRecord(n=3),
-                 'nested-foreign': FarmRecord(rec=ZooRecord(name=u'z', legs=2), tag=u't')}[o]
+                 'nested-foreign': FarmRecord(rec=ZooRecord(name=u'z', legs=2), tag=u't'),
+                 'derived-across-namespaces': Keeper(pet=PetRec(name=u'rex'), badge=7, shift=u'night'),
+                 'choice-only': Contact(phone=u'555')}[o]
     in_value = {'primitive': 7, 'foreign': ZooRecord(name=u'q', legs=1), 'local': LocalRecord(n=1),
-                'nested-foreign': FarmRecord(rec=ZooRecord(name=u'q', legs=0), tag=u'')}[i]
+                'nested-foreign': FarmRecord(rec=ZooRecord(name=u'q', legs=0), tag=u''),
+                'derived-across-namespaces': Keeper(pet=PetRec(name=u'tom'), badge=1, shift=u'day'),
+                'choice-only': Contact(email=u'a@b')}[i]
 
     class S(Service):
         @rpc(IN_TYPES[i], _returns=OUT_TYPES[o], **kw)
